@@ -151,3 +151,17 @@ MUTANTS += [
                     elem = elem[1:]""")]),
     dict(id="c14-split-not-strip", property="C14", edits=[(A, "for index, elem in enumerate(dim_str.split()):", "for index, elem in enumerate(dim_str.split(' ')):")]),
 ]
+
+MUTANTS += [
+    # ---- C03
+    dict(id="c03-bfloat16-not-float", property="C03", edits=[(A, "+ [_bfloat16, _float16, _float32, _float64]", "+ [_float16, _float32, _float64]")]),
+    # (reading tf's dtype.name instead of as_numpy_dtype.__name__ is an *equivalent* mutant on every
+    #  instantiable TF dtype - 'bool' and 'bool_' are both in the Bool table - so it is not listed)
+    dict(id="c03-tf-str-dtype", property="C03", edits=[(A, "dtype = obj.dtype.as_numpy_dtype.__name__", "dtype = obj.dtype.as_numpy_dtype.__name__.rstrip('_')")]),
+    dict(id="c03-startswith", property="C03", edits=[(A, "in_dtypes = dtype == cls_dtype", "in_dtypes = dtype.startswith(cls_dtype)")]),
+    dict(id="c03-regex-search", property="C03", edits=[(A, "in_dtypes = bool(cls_dtype.match(dtype))", "in_dtypes = bool(cls_dtype.search(dtype))")]),
+    dict(id="c03-repr-no-rsplit", property="C03", edits=[(A, '*_, dtype = repr(obj.dtype).rsplit(".", 1)', 'dtype = repr(obj.dtype).split(".", 1)[-1]')]),
+    dict(id="c03-real-includes-complex", property="C03", edits=[(A, 'Real = _make_dtype(floats + uints + ints, "Real")', 'Real = _make_dtype(floats + uints + ints + complexes, "Real")')]),
+    dict(id="c03-struct-any-void", property="C03", edits=[(A, "                dtype = str(obj.dtype)\n", "                dtype = 'void'\n")]),
+    dict(id="c03-loop-no-break", property="C03", edits=[(A, "                if in_dtypes:\n                    break\n", "")]),
+]
